@@ -388,17 +388,17 @@ def minimize_lbfgsb(
 
     # potential update of stop criterion
     if ftarget is not None:
-        try:
-            _ftarget: Optional[float] = ftarget()  # type: ignore
-        except TypeError:
-            _ftarget = ftarget  # type: ignore
+        if callable(ftarget):
+            _ftarget: Optional[float] = ftarget()
+        else:
+            _ftarget = ftarget
     else:
         _ftarget = None
 
-    try:
-        _gtol: float = gtol()  # type: ignore
-    except TypeError:
-        _gtol = gtol  # type: ignore
+    if callable(gtol):
+        _gtol: float = gtol()
+    else:
+        _gtol = gtol
 
     # Create an internal state instance
     istate = InternalState()
